@@ -22,7 +22,7 @@ def dtype(t, errors, where):
     return '(DT "")'
 
 
-def emit_members(tab):
+def emit_members(tab, eq_excluded=None):
     """-> (text, errors)"""
     errors = []
     names = [c["name"] for c in tab["classes"]]
@@ -60,11 +60,13 @@ def emit_members(tab):
     out.append("Definition pyxml_of : list (string * list pyxml) := %s." % coq_list(
         ["(%s, %s)" % (coq_str(c), coq_list(["{| px_py := %s; px_xml := %s; px_is_attr := %s |}" % (coq_str(p), coq_str(x), b(a))
                                               for p, x, a in P.pyxml(c)])) for c in names]))
+    # attribute names GeneratedsSuper.__eq__ leaves out of the comparison (translators/tr_eq.py)
+    out.append("Definition eq_excluded : list string := %s." % coq_list([coq_str(x) for x in (eq_excluded or [])]))
     return "\n".join(out) + "\n", errors
 
 
-def gen_members(ck, tab):
-    text, errors = emit_members(tab)
+def gen_members(ck, tab, eq_excluded=None):
+    text, errors = emit_members(tab, eq_excluded)
     ck.oblige("translate:supergen", not errors, "; ".join(errors[:20]), kind="translate")
     g = ck.gen_v("Gen_Members.v", text)
     ok, out = ck.coqc(g, timeout=600)
